@@ -16,7 +16,7 @@ Sources
              from the RFC layouts (other families, attribute sub-types)
 
 Files written (tab separated, '#' comments)
-  api_lines.txt   status  source  command            status = A accepted / R refused / X exception at harvest
+  api_lines.txt   status  source  command            status = A accepted / R refused / S not a route statement (eor, group ...) / X exception at harvest
   conf/<name>     configuration text;  conf_index.txt   name  routes-at-harvest
   nlri.txt        afi  safi  action(A|W)  hex(one NLRI, no path identifier)  source
   attrs.txt       code  flags(hex)  asn4(0|1; 'ap' on MP_REACH/MP_UNREACH recorded with ADD-PATH)  hex(value)  source
